@@ -287,16 +287,10 @@ def arith(ctx, report, rule, facts, config):
     mx = max(v["discr"] for v in rt["variants"])
     mn = min(v["discr"] for v in rt["variants"])
     prog = ctx.program(facts)
-    ch = P.chain(ctx, facts)
-    acc_c = facts.bodies[ch["closures"][1][1]]
-    k = None
-    for p in enumerate_paths(acc_c, facts):
-        for (ct, cv, cn, cb) in p.conds:
-            if ct[0] == "bin" and ct[1] == "Lt":
-                k = P.fold_int(ct[3])
+    k, k_site = P.group_bound(ctx, facts)
     ok = k is not None and mn >= 0 and (k + 1) * mx <= 127
     report.ob(rule, "running-time-arithmetic", ok, "group size <= %s, RunningTime in %s..%s: accumulated time <= %s, candidate time <= %s <= 127" % (
-        k, mn, mx, None if k is None else k * mx, None if k is None else (k + 1) * mx), site=acc_c.loc(), config=config)
+        k, mn, mx, None if k is None else k * mx, None if k is None else (k + 1) * mx), site=k_site, config=config)
     # every system's time enters as `new_time as u8` of that enum
     ins = facts.one(A.SB + "::insert")
     bt = prog.bt(ins)
